@@ -1078,6 +1078,11 @@ func c03Workers(r *core.Run, a *svcAnchors, e *lockEngine) {
 	// place, and the loop's branch on their result follows only the matching returns)
 	fl := &core.Flow{Fn: w, Entry: core.StateSet(0).Add(need), Tags: true, Inline: func(cal *ssa.Function) bool { return p.IsPrivateHelper(cal) && cal != a.Drain }}
 	fl.Transfer = func(in ssa.Instruction, s int) core.StateSet {
+		if c, ok := in.(ssa.CallInstruction); ok {
+			if cal := c.Common().StaticCallee(); cal != nil && len(cal.Blocks) > 0 && fl.Inline(cal) {
+				return core.StateSet(0).Add(s) // analysed in place: its own wait / unlock instructions count
+			}
+		}
 		if e.isRelease(in) {
 			if _, isRD := in.(*ssa.RunDefers); isRD {
 				return core.StateSet(0).Add(s)
